@@ -87,7 +87,7 @@ def handle_search(job):
         o['calls'] = []
         strings = set()
         try:
-            with limit(case.get('timeout', 120)):
+            with limit(case.get('timeout', 20)):
                 scope = ' '.join(f'{l}:1' for l in case['scope'])
                 wbase = wn.Wordnet(scope)
                 lems = {'none': None, 'custom': custom_lemmatizer, 'morphy_u': Morphy(),
@@ -142,7 +142,7 @@ def handle(job):
         wn.add(p, progress_handler=None)
         o = {'id': case['id'], 'words': case['words'], 'calls': []}
         try:
-            with limit(case.get('timeout', 60)):
+            with limit(case.get('timeout', 20)):
                 w = wn.Wordnet(f'{lid}:1')
                 mi = Morphy(w)
                 mu = Morphy()
